@@ -2467,13 +2467,19 @@ class Controller:
                 hci.HCI_ErrorCode.INVALID_COMMAND_PARAMETERS_ERROR, command.op_code
             )
 
-        connection.send_ll_control_pdu(
-            ll.EncReq(
-                rand=command.random_number,
-                ediv=command.encrypted_diversifier,
-                ltk=command.long_term_key,
-            ),
-        )
+        try:
+            connection.send_ll_control_pdu(
+                ll.EncReq(
+                    rand=command.random_number,
+                    ediv=command.encrypted_diversifier,
+                    ltk=command.long_term_key,
+                ),
+            )
+        except InvalidArgumentError:
+            # The peer has left the link
+            return self._send_hci_command_status(
+                hci.HCI_ErrorCode.CONNECTION_TIMEOUT_ERROR, command.op_code
+            )
 
         self._send_hci_command_status(hci.HCI_COMMAND_STATUS_PENDING, command.op_code)
 
@@ -2859,9 +2865,17 @@ class Controller:
 
             cis_link.acl_connection = connection
 
-            connection.send_ll_control_pdu(
-                ll.CisReq(cig_id=cis_link.cig_id, cis_id=cis_link.cis_id)
-            )
+            try:
+                connection.send_ll_control_pdu(
+                    ll.CisReq(cig_id=cis_link.cig_id, cis_id=cis_link.cis_id)
+                )
+            except InvalidArgumentError:
+                # The peer has left the link
+                cis_link.acl_connection = None
+                self._send_hci_command_status(
+                    hci.HCI_ErrorCode.CONNECTION_TIMEOUT_ERROR, command.op_code
+                )
+                return
 
         self._send_hci_command_status(hci.HCI_COMMAND_STATUS_PENDING, command.op_code)
 
@@ -2901,9 +2915,18 @@ class Controller:
             return
 
         assert pending_cis_link.acl_connection
-        pending_cis_link.acl_connection.send_ll_control_pdu(
-            ll.CisRsp(cig_id=pending_cis_link.cig_id, cis_id=pending_cis_link.cis_id),
-        )
+        try:
+            pending_cis_link.acl_connection.send_ll_control_pdu(
+                ll.CisRsp(
+                    cig_id=pending_cis_link.cig_id, cis_id=pending_cis_link.cis_id
+                ),
+            )
+        except InvalidArgumentError:
+            # The peer has left the link
+            self._send_hci_command_status(
+                hci.HCI_ErrorCode.CONNECTION_TIMEOUT_ERROR, command.op_code
+            )
+            return None
 
         self._send_hci_command_status(hci.HCI_COMMAND_STATUS_PENDING, command.op_code)
         return None
